@@ -110,6 +110,28 @@ template <class A> struct World {
   };
   std::vector<std::unique_ptr<Obj>> objs;
   UriMemoryManager *defaultMm = nullptr;  // manager for new objects (nullptr = libc)
+  bool audit = false;                     // bracket read-only arguments and source texts (C12)
+  std::string auditError;
+  std::string all_texts() {
+    std::string o;
+    for (auto &p : objs) { if (p->buf) o.append((const char *)p->buf.get(), p->buflen * sizeof(Ch)); o += '|'; }
+    return o;
+  }
+  struct Bracket {
+    World *w; std::string f1, f2, texts; const typename A::Uri *a, *b; const char *what;
+    Bracket(World *w_, const typename A::Uri *a_, const typename A::Uri *b_, const char *what_) : w(w_), a(a_), b(b_), what(what_) {
+      if (!w->audit) return;
+      if (a) f1 = freeze<A>(*a);
+      if (b) f2 = freeze<A>(*b);
+      texts = w->all_texts();
+    }
+    ~Bracket() {
+      if (!w->audit || !w->auditError.empty()) return;
+      if (a && freeze<A>(*a) != f1) w->auditError = std::string(what) + ": first read-only URI argument was modified";
+      else if (b && freeze<A>(*b) != f2) w->auditError = std::string(what) + ": second read-only URI argument was modified";
+      else if (w->all_texts() != texts) w->auditError = std::string(what) + ": caller-supplied input text was modified";
+    }
+  };
 
   int size() const { return (int)objs.size(); }
   Obj &at(int i) { return *objs[(size_t)i]; }
@@ -149,7 +171,8 @@ template <class A> struct World {
     if (!at(i).valid || !at(j).valid) { r.skipped = true; return r; }
     int k = newobj();
     Obj &o = at(k);
-    r.rc = A::AddBaseUriExMm(&o.uri, &at(i).uri, &at(j).uri, (UriResolutionOptions)opt, o.mm);
+    { Bracket br(this, &at(i).uri, &at(j).uri, "uriAddBaseUri");
+    r.rc = A::AddBaseUriExMm(&o.uri, &at(i).uri, &at(j).uri, (UriResolutionOptions)opt, o.mm); }
     o.live = true;
     o.valid = r.rc == 0;
     if (o.valid) { o.borrows = deps_of(i); for (int x : deps_of(j)) o.borrows.insert(x); o.borrows.erase(k); r.produced = k; }
@@ -160,7 +183,8 @@ template <class A> struct World {
     if (!at(i).valid || !at(j).valid) { r.skipped = true; return r; }
     int k = newobj();
     Obj &o = at(k);
-    r.rc = A::RemoveBaseUriMm(&o.uri, &at(i).uri, &at(j).uri, dr ? URI_TRUE : URI_FALSE, o.mm);
+    { Bracket br(this, &at(i).uri, &at(j).uri, "uriRemoveBaseUri");
+    r.rc = A::RemoveBaseUriMm(&o.uri, &at(i).uri, &at(j).uri, dr ? URI_TRUE : URI_FALSE, o.mm); }
     o.live = true;
     o.valid = r.rc == 0;
     if (o.valid) { o.borrows = deps_of(i); for (int x : deps_of(j)) o.borrows.insert(x); o.borrows.erase(k); r.produced = k; }
@@ -171,7 +195,8 @@ template <class A> struct World {
     Res r;
     if (!at(i).valid || borrowed_by_others(i)) { r.skipped = true; return r; }
     Obj &o = at(i);
-    r.rc = A::NormalizeSyntaxExMm(&o.uri, mask, o.mm);
+    { Bracket br(this, nullptr, nullptr, "uriNormalizeSyntax");
+    r.rc = A::NormalizeSyntaxExMm(&o.uri, mask, o.mm); }
     if (r.rc != 0) { o.valid = false; return r; }
     if (o.uri.owner) o.borrows.clear();
     r.produced = i;
@@ -181,7 +206,8 @@ template <class A> struct World {
     Res r;
     if (!at(i).valid || borrowed_by_others(i)) { r.skipped = true; return r; }
     Obj &o = at(i);
-    r.rc = A::MakeOwnerMm(&o.uri, o.mm);
+    { Bracket br(this, nullptr, nullptr, "uriMakeOwner");
+    r.rc = A::MakeOwnerMm(&o.uri, o.mm); }
     if (r.rc != 0) { o.valid = false; return r; }
     o.borrows.clear();
     r.produced = i;
@@ -196,9 +222,33 @@ template <class A> struct World {
       case 'B': if (!n) break; return removebase(ix(op.i), ix(op.j), op.arg & 1);
       case 'N': if (!n) break; return normalize(ix(op.i), (unsigned)op.arg);
       case 'O': if (!n) break; return makeowner(ix(op.i));
+      case 'S': if (!n || !at(ix(op.i)).valid) break; { Bracket br(this, &at(ix(op.i)).uri, nullptr, "uriToString/uriToStringCharsRequired"); std::string t; to_string<A>(at(ix(op.i)).uri, &t); } break;
+      case 'E': if (!n || !at(ix(op.i)).valid || !at(ix(op.j)).valid) break; { Bracket br(this, &at(ix(op.i)).uri, &at(ix(op.j)).uri, "uriEqualsUri"); A::EqualsUri(&at(ix(op.i)).uri, &at(ix(op.j)).uri); } break;
+      case 'M': if (!n || !at(ix(op.i)).valid) break; { Bracket br(this, &at(ix(op.i)).uri, nullptr, "uriNormalizeSyntaxMaskRequired(Ex)"); unsigned m = 0; A::NormalizeSyntaxMaskRequired(&at(ix(op.i)).uri); A::NormalizeSyntaxMaskRequiredEx(&at(ix(op.i)).uri, &m); } break;
       default: break;
     }
     Res r; r.skipped = true; return r;
+  }
+  // overwrite and free every caller-owned source text (ASan flags any later access)
+  void scribble_sources() {
+    for (auto &p : objs) if (p->buf) { if (p->buflen) memset(p->buf.get(), 0xFF, p->buflen * sizeof(Ch)); p->buf.reset(); }
+  }
+  // release every object except `keep`
+  void release_others(int keep) {
+    bool progress = true;
+    while (progress) {
+      progress = false;
+      for (int k = size() - 1; k >= 0; k--) {
+        Obj &o = at(k);
+        if (k == keep || !o.live) continue;
+        bool borrowed = false;
+        for (int q = 0; q < size(); q++) if (q != k && q != keep && at(q).live && at(q).borrows.count(k)) borrowed = true;
+        if (borrowed) continue;
+        A::FreeUriMembersMm(&o.uri, o.mm);
+        o.live = false; o.valid = false; o.borrows.clear();
+        progress = true;
+      }
+    }
   }
   // release objects so that nothing is released while something still borrows from it
   void release_all() {
